@@ -509,6 +509,33 @@ def check_string_forms(run, tree, all_cases=False):
                    "b = get_direction(%r); b.n *= -1; every later map(direction=%r) is mirrored (the axis vectors are shared between calls)" % (d, d))
         except ERR as e:
             run.unresolved(construct, fi.where(), "cannot fold: %s" % e)
+    # every OTHER string spelled with axis letters (repeated letters, two letters, four letters): either it is not accepted (an exception,
+    # or no basis at all) or the basis it yields is orthonormal like any other - "xxy" or "xxyz" must not reach map() as n = u = x
+    perms = {"".join(p) for p in itertools.permutations("xyz")}
+    words = ["".join(w) for k in ((2, 3, 4, 5) if all_cases else (2, 3, 4)) for w in itertools.product("xyz", repeat=k)]
+    words = [w for w in words if w not in perms] + ["XXY", "Zzz"]
+    n_ref = 0
+    bad_words = []
+    try:
+        for w in words:
+            try:
+                basis = ModelEval(tree, fi, {}, hk).invoke(fi, [w], {}, None)
+            except (Raised, ProgramRaised):
+                n_ref += 1
+                continue
+            if basis is None:
+                n_ref += 1
+                continue
+            probs = basis_problems(tree, hk, basis) if isinstance(basis, PyObj) else ["returns %r" % (basis,)]
+            if probs:
+                bad_words.append((w, probs[0]))
+        construct = "%s[strings of axis letters that are not an axis order]" % GD
+        run.ob(construct, not bad_words, fi.where(),
+               "; ".join("direction=%r accepted with %s" % wp for wp in bad_words[:3]) + (" (%d strings in all)" % len(bad_words) if len(bad_words) > 3 else "")
+               if bad_words else "%d strings: %d refused, %d accepted with an orthonormal basis" % (len(words), n_ref, len(words) - n_ref),
+               "map(direction='xxy') or 'xxyz' renders from a basis with n = u (a degenerate image plane) instead of being refused")
+    except ERR as e:
+        run.unresolved("%s[strings of axis letters that are not an axis order]" % GD, fi.where(), "cannot fold: %s" % e)
     # anything else is refused
     for bad in (3.5, ["x"], None):
         construct = "%s[direction=%r]" % (GD, bad)
